@@ -741,6 +741,182 @@ def same_value(iv, mv):
     return iv == mv
 
 
+
+# ============================================================================ strings with several unit-carrying tags
+# The unit rule is per tag: the unit issues of a string are the concatenation over its tags of the per-tag issues
+# (Model/Units.v validate_units_string, Props C11_string_is_concat / _tag_context_free / _order_irrelevant).
+
+LAYOUTS = ("groups", "toplevel", "same-group", "nested")
+
+
+def multi_string(layout, tags):
+    parts = [f"{sp}/{ext}" for sp, _name, ext in tags]
+    if layout == "groups":
+        return ", ".join(f"({x})" for x in parts)
+    if layout == "toplevel":
+        return ", ".join(parts)
+    if layout == "same-group":
+        return "(" + ", ".join(parts) + ")"
+    out = parts[-1]
+    for x in reversed(parts[:-1]):
+        out = f"{x}, ({out})"
+    return f"({out})"
+
+
+def spelling_pairs(view, cname, rng, n):
+    """(text a, text b, prefix?) : two spellings that differ only in letter case (declared / re-cased symbol,
+    name / re-cased name), over units x modifiers (permitted or not) of one class; names with blanks left out."""
+    c = [x for x in view["classes"] if x["name"] == cname][0]
+    pool = []
+    for u in c["units"]:
+        if " " in u["name"]:
+            continue
+        bases = [u["name"]] if u["symbol"] else [u["name"].lower(), u["plural"]]
+        mods = [None] + permitted(view, u)
+        extra = [m for m in view["mods"] if m not in mods]
+        if extra:
+            mods = mods + [rng.choice(extra)]
+        for m in mods:
+            for b in bases:
+                k = (m["name"] if m else "") + b
+                vs_ = case_variants(k, u["symbol"], rng)
+                for v in vs_[1:]:
+                    pool.append((k, v, u["prefix"]))
+                if len(vs_) > 2:
+                    pool.append((vs_[1], vs_[2], u["prefix"]))
+    rng.shuffle(pool)
+    sym_first = sorted(pool[:n], key=lambda x: x[0])
+    return sym_first
+
+
+def gen_multi(view, key, rng, per_class, all_tags):
+    """(key, layout, [(tag spelling, node name, extension), ...], stream)"""
+    out = []
+    seen = set()
+    li = 0
+    for t in view["tags"]:
+        sig = tuple(t["classes"]) + (t["numeric"],)
+        if sig in seen and not all_tags:
+            continue
+        seen.add(sig)
+        name = t["name"]
+        forms = [name, name, name.lower(), name.upper(), t["long"][:-2]]
+        for cn in t["classes"]:
+            if not any(c["name"] == cn for c in view["classes"]):
+                continue
+            for a, b, pre in spelling_pairs(view, cn, rng, per_class):
+                num = rng.choice(VALID_NUMS)
+                num_b = num
+                r = rng.random()
+                if r < 0.15:
+                    num_b = num.swapcase() if num.swapcase() != num else "1E3"     # the value in another case
+                    if num_b == "1E3":
+                        num = "1e3"
+                elif r < 0.25:
+                    num_b = rng.choice(VALID_NUMS)
+
+                def ext(n_, u_):
+                    return f"{u_} {n_}" if pre else f"{n_} {u_}"
+                ta = (name, name, ext(num, a))
+                tb = (rng.choice(forms), name, ext(num_b, b))
+                combos = [[ta, tb], [tb, ta]]
+                r2 = rng.random()
+                if r2 < 0.2:
+                    combos.append([ta, tb, (rng.choice(forms), name, ext(num, a))])
+                elif r2 < 0.4:
+                    combos.append([tb, (name, name, ext(num_b, b))])        # the same tag twice
+                elif r2 < 0.5:
+                    combos.append([ta, (name, name, ext(num, a)), tb])
+                for tags in combos:
+                    out.append((key, LAYOUTS[li % len(LAYOUTS)], tags, "multi"))
+                    li += 1
+    return out
+
+
+MULTI_CORPUS = [
+    ("8_3_0", "groups", [("Delay", "Delay", "3 ms"), ("Delay", "Delay", "3 MS")], "multi-corpus"),
+    ("8_3_0", "groups", [("Delay", "Delay", "3 MS"), ("Delay", "Delay", "3 ms")], "multi-corpus"),
+    ("8_3_0", "toplevel", [("Distance", "Distance", "2 km"), ("distance", "Distance", "2 Km")], "multi-corpus"),
+    ("8_3_0", "groups", [("Duration", "Duration", "3 seconds"), ("Duration", "Duration", "3 SECONDS")], "multi-corpus"),
+    ("8_3_0", "same-group", [("Distance", "Distance", "1e3 m"), ("Distance", "Distance", "1E3 M")], "multi-corpus"),
+    ("8_3_0", "groups", [("Delay", "Delay", "3 MS"), ("Delay", "Delay", "3 MS")], "multi-corpus"),
+]
+
+
+def impl_multi(mc):
+    key, layout, tags, _stream = mc
+    from hed.models.hed_string import HedString
+    sch = impl_schema(key)
+
+    def unit_issues(text):
+        iss = HedString(text, sch).validate()
+        got = []
+        for i in iss:
+            if i["code"] in CODES:
+                st = i.get("source_tag")
+                got.append([getattr(st, "org_tag", str(st)), CODES[i["code"]]])
+        return sorted(got)
+    out = {}
+    try:
+        out["per_tag"] = unit_issues(multi_string(layout, tags))
+        alone = {}
+        for sp, _n, ext in tags:
+            one = f"{sp}/{ext}"
+            if one not in alone:
+                alone[one] = [c for _t, c in unit_issues(multi_string(layout, [(sp, _n, ext)]))]
+        out["alone"] = alone
+    except Exception as ex:  # noqa
+        out["exn"] = type(ex).__name__ + ":" + str(ex)[:80]
+    return out
+
+
+def multi_expected(view, mc):
+    """Per tag, from the statement: [[org_tag, code], ...] sorted; None when some tag is outside the spec'd shapes."""
+    key, layout, tags, _stream = mc
+    exp = []
+    for sp, name, ext in tags:
+        t = [x for x in view["tags"] if x["name"] == name][0]
+        e = spec_case(view, t["classes"], t["numeric"], ext)
+        if e["kind"] == "skip":
+            return None
+        exp += [[f"{sp}/{ext}", c] for c in e["codes"]]
+    return sorted(exp)
+
+
+def multi_desc(view, mc):
+    key, layout, tags, stream = mc
+    return {"schema": key, "schema_file": view["file"], "string": multi_string(layout, tags),
+            "multi": {"layout": layout, "tags": [list(x) for x in tags]}, "stream": stream}
+
+
+def judge_multi(res, view, mc, got):
+    exp = multi_expected(view, mc)
+    if exp is None:
+        return False
+    d = multi_desc(view, mc)
+    if "exn" in got:
+        res.report("validation-never-raises", d, got["exn"])
+        return True
+    if got["per_tag"] != exp:
+        res.report("per-tag-verdict-in-a-string", d, f"unit issues of the string {got['per_tag']}; per tag the "
+                                                     f"statement gives {exp}")
+    else:
+        # and it is what each tag gets when it stands alone
+        want = sorted([f"{sp}/{ext}", c] for sp, _n, ext in mc[2] for c in got["alone"][f"{sp}/{ext}"])
+        if want != got["per_tag"]:
+            res.report("per-tag-verdict-in-a-string", d, f"in the string {got['per_tag']}, alone {want}")
+    return True
+
+
+def multi_model_line(path, view, mc):
+    items = []
+    for _sp, name, ext in mc[2]:
+        t = [x for x in view["tags"] if x["name"] == name][0]
+        items.append("(" + " ".join([C.to_sx(t["numeric"]), "(" + " ".join(_sx_str(c) for c in t["classes"]) + ")",
+                                     _sx_str(ext)]) + ")")
+    return "(" + " ".join([path, "M", C.to_sx(bool(FIXED_F3)), C.to_sx(bool(FIXED_F4)), "(" + " ".join(items) + ")"]) + ")"
+
+
 def _impl_worker(case):
     return impl_case(case[:4])
 
@@ -772,8 +948,14 @@ def run(tier, seed, res, model_ok=True, proof_ok=True):
                 if tier == "quick" and proof_ok and k == "8_2_0":
                     cs = [c for i, c in enumerate(cs) if i % 3 == 0]
                 cases += cs
+        mcases = [m for m in MULTI_CORPUS if m[0] in vs]
+        for k in sorted(plan):
+            if k in vs:
+                quick = tier == "quick" and proof_ok
+                mcases += gen_multi(vs[k], k, rng, (40 if k == "8_3_0" else 12) if quick else 60, not quick)
         with Pool(int(C.JOBS)) as pool:
             impl = pool.map(_impl_worker, cases, chunksize=200)
+            mimpl = pool.map(impl_multi, mcases, chunksize=50)
         stats = collections.Counter()
         hist = collections.Counter()
         for case, got in zip(cases, impl):
@@ -782,9 +964,30 @@ def run(tier, seed, res, model_ok=True, proof_ok=True):
             exp = spec_case(view, classes_of(view, case), numeric_of(view, case), case[3])
             hist["spec:" + exp["kind"]] += 1
             classify_and_report(res, view, case, exp, got, stats)
+        mjudged = 0
+        for mc, got in zip(mcases, mimpl):
+            hist[mc[3] + ":" + mc[1]] += 1
+            if judge_multi(res, vs[mc[0]], mc, got):
+                mjudged += 1
         disagreements = 0
         if model_ok:
             exe = C.build_driver("c11")
+            mmod = C.run_driver(exe, [multi_model_line(paths[m[0]], vs[m[0]], m) for m in mcases])
+            for mc, got, m in zip(mcases, mimpl, mmod):
+                if "exn" in got:
+                    continue
+                if m and m[0] == "ERR":
+                    disagreements += 1
+                    res.violation("correspondence", multi_desc(vs[mc[0]], mc), f"model driver: {m}", no_input=True)
+                    continue
+                if sorted(m) != sorted(c for _t, c in got["per_tag"]):
+                    disagreements += 1
+                    probe = C.Result(PROP)
+                    probe.known_ids = {}
+                    judge_multi(probe, vs[mc[0]], mc, got)
+                    if not probe.violations:
+                        res.violation("correspondence", multi_desc(vs[mc[0]], mc),
+                                      f"string codes impl={got['per_tag']} model={sorted(m)}", no_input=True)
             mod = C.run_driver(exe, [model_line(paths[c[0]], vs[c[0]], c) for c in cases])
             for case, got, m in zip(cases, impl, mod):
                 if "codes_exn" in got:
@@ -816,7 +1019,13 @@ def run(tier, seed, res, model_ok=True, proof_ok=True):
                                        "string": f"{case[1]}/{case[3]}"}, "; ".join(diffs), no_input=True)
         distinct = len({(c[0], c[1], tuple(c[2] or ()), c[3]) for c in cases if " " in c[3]})
         return {
-            "evaluations": len(cases),
+            "evaluations": len(cases) + len(mcases),
+            "multi_tag_strings": {"strings": len(mcases), "judged": mjudged,
+                                  "rule": "two or three unit-carrying tags per string that differ only in the letter "
+                                          "case of the unit (declared/re-cased symbol, name/re-cased name), of the "
+                                          "value or of the tag spelling (short, lower, upper, long form), both "
+                                          "orders, repeated tags; layouts: separate groups, top level, one group, "
+                                          "nested; per tag the verdict of the statement = the verdict alone"},
             "distinct_nontrivial": distinct,
             "rule": "corpus + per schema: every (value-taking node with unit classes | unit class no node uses) x unit x "
                     "modifier (permitted or not) x singular/plural x case variants x rotating numeric literals, bare "
@@ -827,7 +1036,7 @@ def run(tier, seed, res, model_ok=True, proof_ok=True):
             "samples": [list(cases[i][:4]) for i in (0, 3, len(cases) // 2, len(cases) - 1)],
             "histogram": dict(hist),
             "disagreements_checked": disagreements,
-            "correspondence_cases": len(cases) if model_ok else 0,
+            "correspondence_cases": (len(cases) + len(mcases)) if model_ok else 0,
             "exhaustive": False,
             "oracle": {"accepted_spellings": stats["accepted"], "other_texts": stats["other"],
                        "values_compared": stats["values_checked"], "values_compared_exactly": stats["values_exact"]},
@@ -840,6 +1049,19 @@ def run(tier, seed, res, model_ok=True, proof_ok=True):
 
 def replay(payload):
     case = payload.get("case") or {}
+    if "multi" in case:
+        mc = (case["schema"], case["multi"]["layout"], [tuple(x) for x in case["multi"]["tags"]], "replay")
+        view = views()[mc[0]]
+        got = impl_multi(mc)
+        res = C.Result(PROP)
+        res.known_ids = {}
+        judge_multi(res, view, mc, got)
+        print("string:", multi_string(mc[1], mc[2]), "schema:", view["file"])
+        print("impl:", got)
+        print("statement expects per tag:", multi_expected(view, mc))
+        for v in res.violations:
+            print("FAILS:", v["clause"], v["detail"])
+        return 1 if res.violations else 0
     if "extension" not in case:
         print("no concrete input in replay:", str(payload.get("detail", ""))[:800])
         return 1
